@@ -133,8 +133,16 @@ def _f(rng: random.Random) -> float:
 def synth(rng: random.Random, layout: str = 'v20', *, compress: tuple = (), origin_vertex: bool = True,
           faceids: str = 'full', water: bool = True, overlay_aux: bool = True, vis: bool = True,
           n_extra: int = 1, extra_game: bool = False, compress_game: tuple = (), fractional_bounds: bool = False,
-          detail_shapes: bool = False, hdr: bool = True, bad: tuple = (), aux: str = 'normal') -> tuple[bytes, dict]:
+          detail_shapes: bool = False, hdr: bool = True, bad: tuple = (), aux: str = 'normal',
+          adv: bool = True) -> tuple[bytes, dict]:
     """Build one consistent BSP. Returns (file bytes, description).
+    `adv` (default on) makes the contents of every table a writer rebuilds or de-duplicates adversarial but valid:
+    texture names that are a prefix / an inner substring / a tail of an EARLIER name (storage the string-pool search may
+    or may not share), two table entries naming the same string, a name of the maximal length 127, an exact duplicate and
+    a near duplicate (same name, other reflectivity) of a texdata record, an exact duplicate of a texinfo record, an exact
+    duplicate and a near duplicate (same normal and distance, other axis type) of a plane, a duplicate vertex, an edge
+    stored in both directions, surfedges naming them, a static-prop model name that is a prefix of another and one that no
+    prop uses.  `adv=False` gives the plain tables of rounds 1-3.
     `aux` puts the contents of the side lumps (the lumps a view clears besides its main lump, which only the view's
     writer can restore) at the values where they LOOK unused: 'zero' = every record of OVERLAY_FADES,
     OVERLAY_SYSTEM_LEVELS, LEAFMINDISTTOWATER, LEAFFACES, LEAFBRUSHES, PRIMINDICES, PRIMVERTS, BRUSHSIDES, TEXDATA and
@@ -159,6 +167,17 @@ def synth(rng: random.Random, layout: str = 'v20', *, compress: tuple = (), orig
 
     # textures / texdata / texinfo
     names = ['TOOLS/TOOLSNODRAW', 'brick/wall01', 'NATURE/water_canals01', 'wall01'][:3 + (n_extra > 0)]
+    if adv:
+        # every later name below is a prefix (P), an inner substring (I) or a tail (T) of an earlier one; each is stored
+        # in full in the file (a writer may share the tails, nothing else); 127 characters is the longest legal name
+        names = ['TOOLS/TOOLSNODRAWPORTALABLE', 'maps/synth/brick/wall01_-64_0_32', 'NATURE/water_canals01a',
+                 'TOOLS/TOOLSNODRAW',            # P of 0
+                 'brick/wall01',                 # I of 1
+                 'wall01_-64_0_32',              # T of 1
+                 'NATURE/water_canals01',        # P of 2
+                 'L/' + 'o' * 124 + 'g',         # 127 characters
+                 'o' * 124,                      # I of the long one
+                 ][:5 + 2 * n_extra]
     if aux == 'zero':
         names = names[:1]       # a single name: the string table is [0]
     sdata = b''
@@ -166,6 +185,9 @@ def synth(rng: random.Random, layout: str = 'v20', *, compress: tuple = (), orig
     for nm in names:
         offs.append(len(sdata))
         sdata += nm.encode() + b'\0'
+    if adv and aux != 'zero':
+        offs.append(offs[1])     # two table entries naming the same stored string
+        names = names + [names[1]]
     d['TEXDATA_STRING_DATA'] = sdata
     d['TEXDATA_STRING_TABLE'] = b''.join(struct.pack('<i', o) for o in offs)
     td = []
@@ -177,19 +199,33 @@ def synth(rng: random.Random, layout: str = 'v20', *, compress: tuple = (), orig
             td.append(struct.pack('<3f3i', 0.25, 0.5, 0.125 * i, i, w, h))
         else:
             td.append(struct.pack('<3f5i', 0.25, 0.5, 0.125 * i, i, w, h, w, h))
+    if adv and aux not in ('zero', 'mixed'):
+        td.append(td[1])                                    # exact duplicate of texdata 1
+        td.append(struct.pack('<3f', 0.75, 0.5, 0.125) + td[1][12:])      # near duplicate: same name and size, other reflectivity
     d['TEXDATA'] = b''.join(td)
-    n_ti = len(names) + 1
-    d['TEXINFO'] = b''.join(struct.pack('<16fii', *[_f(rng) for _ in range(16)], rng.choice([0, 4, 0x80, 0x400]), i % len(names))
-                            for i in range(n_ti))
+    n_ti = len(td) + 1
+    ti = [struct.pack('<16fii', *[_f(rng) for _ in range(16)], rng.choice([0, 4, 0x80, 0x400]), i % len(td)) for i in range(n_ti)]
+    if adv:
+        ti.append(ti[0])                                    # exact duplicate of texinfo 0
+        n_ti += 1
+    d['TEXINFO'] = b''.join(ti)
     # planes, vertexes, edges, surfedges
     n_pl = 4
-    d['PLANES'] = b''.join(struct.pack('<ffffi', *(1.0, 0.0, 0.0) if i % 2 else (0.0, 0.0, 1.0), _f(rng), (0, 2, 3, 5)[i % 4])
-                           for i in range(n_pl))
+    pl = [struct.pack('<ffffi', *(1.0, 0.0, 0.0) if i % 2 else (0.0, 0.0, 1.0), _f(rng), (0, 2, 3, 5)[i % 4]) for i in range(n_pl)]
+    if adv:
+        pl.append(pl[0])                                    # exact duplicate of plane 0 (brush side 4 names it)
+        pl.append(pl[1][:16] + struct.pack('<i', 4))        # near duplicate of plane 1: other axis type
+        n_pl = 6
+    d['PLANES'] = b''.join(pl)
     verts = [(0.0, 0.0, 0.0) if origin_vertex else (8.0, 0.0, 0.0)] + [(_f(rng), _f(rng), 16.0 + i) for i in range(5)]
-    d['VERTEXES'] = b''.join(struct.pack('<fff', *v) for v in verts)
     edges = [(0, 0), (1, 2), (2, 3), (3, 1), (3, 4), (4, 5)]
-    d['EDGES'] = b''.join(L['EDGE'].pack(a, b) for a, b in edges)
     surfedges = [1, 2, 3, -1, 4, -3, 5, -5]
+    if adv:
+        verts.append(verts[1])                              # a second vertex at the position of vertex 1
+        edges += [(6, 2), (2, 1)]                           # an edge from the duplicate vertex; edge 1 stored reversed as well
+        surfedges += [6, 7, -6, -7]
+    d['VERTEXES'] = b''.join(struct.pack('<fff', *v) for v in verts)
+    d['EDGES'] = b''.join(L['EDGE'].pack(a, b) for a, b in edges)
     d['SURFEDGES'] = b''.join(struct.pack('i', s) for s in surfedges)
     # primitives
     if not vit:
@@ -323,6 +359,8 @@ def synth(rng: random.Random, layout: str = 'v20', *, compress: tuple = (), orig
     # game lumps
     leaf_fmt = L['STATICPROPLEAF']
     model_names = ['models/props/a.mdl', 'models/props_c17/b.mdl']
+    if adv:     # a name that is a prefix of another; the last one is used by no prop
+        model_names = ['models/props/a.mdl_lod1', 'models/props/a.mdl', 'models/props_c17/b.mdl']
     sp = io.BytesIO()
     sp.write(struct.pack('<i', len(model_names)))
     for nm in model_names:
@@ -397,6 +435,6 @@ def synth(rng: random.Random, layout: str = 'v20', *, compress: tuple = (), orig
     blob = encode_container(magic, version, l4d2, rev, lumps, games)
     desc = dict(layout=layout, compress=sorted(compress), compress_game=sorted(compress_game), origin_vertex=origin_vertex,
                 faceids=faceids, water=water, overlay_aux=overlay_aux, vis=vis, n_extra=n_extra, extra_game=extra_game,
-                fractional_bounds=fractional_bounds, detail_shapes=detail_shapes, hdr=hdr, bad=sorted(bad), aux=aux, map_revision=rev, size=len(blob))
+                fractional_bounds=fractional_bounds, detail_shapes=detail_shapes, hdr=hdr, bad=sorted(bad), aux=aux, adv=adv, map_revision=rev, size=len(blob))
     desc['_parts'] = dict(magic=magic, version=version, l4d2=l4d2, map_revision=rev, lumps=lumps, games=games)
     return blob, desc
